@@ -269,6 +269,26 @@ impl GraphType {
     }
 }
 
+// ---- A-rank: a finite acyclic graph has a depth and a height function (longest path from a root / to a leaf), which
+//      depend only on which dependencies exist.  Used only as termination measures of the recursive graph walks.
+pub uninterp spec fn topo_depth(dag: &GraphType, n: usize) -> nat;
+pub uninterp spec fn topo_height(dag: &GraphType, n: usize) -> nat;
+
+pub axiom fn axiom_rank_edge(dag: &GraphType, a: usize, b: usize)
+    requires dag.acyclic(), dag.has_edge(a, b),
+    ensures topo_depth(dag, a) < topo_depth(dag, b), topo_height(dag, b) < topo_height(dag, a);
+
+/// acyclicity depends only on which dependencies exist (broadcast form, triggered by the frame predicate's pieces)
+pub broadcast axiom fn axiom_acyclic_dom(d0: &GraphType, d1: &GraphType)
+    requires d0.nodes_set() == d1.nodes_set(), #[trigger] d0.edges().dom() =~= #[trigger] d1.edges().dom(),
+    ensures d0.acyclic() == d1.acyclic();
+
+pub axiom fn axiom_rank_dom(d0: &GraphType, d1: &GraphType)
+    requires d0.nodes_set() == d1.nodes_set(), d0.edges().dom() =~= d1.edges().dom(),
+    ensures d0.acyclic() == d1.acyclic(),
+        forall|n: usize| #![trigger topo_depth(d1, n)] topo_depth(d0, n) == topo_depth(d1, n),
+        forall|n: usize| #![trigger topo_height(d1, n)] topo_height(d0, n) == topo_height(d1, n);
+
 // ---- R7: std::collections::VecDeque<T> as a sequence (A-vecdeque)
 #[verifier::external_body]
 #[verifier::accept_recursive_types(T)]
